@@ -280,6 +280,36 @@ func runC03(r *core.Run) {
 		s.Transitions.Store(s.Evals.Load())
 		s.Done()
 	}
+	{
+		// attribute names near the vocabulary: the filter must behave as the exact set, not as an approximation of it
+		var allowed []string
+		for a := range globalAttrs {
+			allowed = append(allowed, a)
+		}
+		sort.Strings(allowed)
+		names := attrNameNeighbours(allowed, !r.Quick())
+		cfg := core.MustCfg("core+attr")
+		s := r.Sub("attr-name-neighbours", fmt.Sprintf("%d attribute names near the heading vocabulary but outside it (all names of ≤3 letters; single substitutions, insertions, deletions, transpositions, rearrangements of the first four bytes, per-position crossovers of the first three bytes, head/tail crossovers of two allowed names%s), as '# h {NAME=x}' and 'h {NAME=x .c}' + Setext underline under %s: none may reach the output", len(names), map[bool]string{true: "", false: ", double substitutions"}[r.Quick()], cfg))
+		s.Planned = int64(2 * len(names))
+		s.Bound = fmt.Sprintf("names=%d templates=2", len(names))
+		core.ForEachIndex(len(names), nw, func(w int) func(int) {
+			cv := core.NewConv(cfg)
+			return func(i int) {
+				n := names[i]
+				for _, d := range []string{"# h {" + n + "=x}", "h {" + n + "=x .c}\n==="} {
+					c03Case(s, cv, []byte(d), "attr-name-neighbours")
+					s.Evals.Add(1)
+				}
+				s.Distinct(core.Hash([]byte(n)))
+				if i%(len(names)/6+1) == 0 {
+					s.AddSample("# h {" + n + "=x}")
+				}
+			}
+		}, r.Expired)
+		s.States.Store(int64(len(names)))
+		s.Transitions.Store(s.Evals.Load())
+		s.Done()
+	}
 	// long payloads of every length in every sink (buffers, chunked escaping, multi-byte sequences at chunk borders)
 	lengthSub(r, "lengths/all+attr+autoid+xhtml", core.MustCfg("all+attr+autoid+xhtml"), core.Pick(r, 600, 2200), func(s *core.Sub, cv *core.Conv, w []byte) { c03Case(s, cv, w, "lengths") })
 	// every byte value in every sink
